@@ -197,7 +197,8 @@ fn apply_op(b: &mut Bundle, t: &[&str]) -> Option<()> {
     match t {
         ["add", ty, nm, fl, crc, d] => { let mut c = new_canonical_block(ty.parse().ok()?, nm.parse().ok()?, fl.parse().ok()?, parse_data(d)?); c.crc = parse_crc(crc)?; b.add_canonical_block(c); }
         ["setpayload", h] => b.set_payload(unhex(h)?),
-        ["setpayloadblock", fl, h] => b.set_payload_block(new_payload_block(BlockControlFlags::from_bits_retain(fl.parse().ok()?), unhex(h)?)),
+        // a payload block as a caller may hand it in: any block number (0 from CanonicalBlock::new, a taken one, …)
+        ["setpayloadblock", nm, fl, h] => b.set_payload_block(new_canonical_block(1, nm.parse().ok()?, fl.parse().ok()?, CanonicalData::Data(unhex(h)?))),
         ["setcrc", c] => b.set_crc(c.parse().ok()?),
         ["upd", node, rt, now] => { set_clock_dtn(now.parse().ok()?); b.update_extensions(parse_eid(node)?, rt.parse().ok()?); }
         _ => return None,
@@ -311,7 +312,7 @@ pub fn exec(line: &str, _model: &mut Model) -> Option<Exec> {
                     Some(None) => { out.push_str(" || bad-op"); break; }
                     Some(Some(c)) => { b = c; }
                 }
-                match o[0] { "setpayload" => last_payload = unhex(o[1]), "setpayloadblock" => last_payload = unhex(o[2]), _ => {} }
+                match o[0] { "setpayload" => last_payload = unhex(o[1]), "setpayloadblock" => last_payload = unhex(o[3]), _ => {} }
                 // OpOk: added blocks are well typed, CRC types 0..2
                 if o[0] == "add" { let c = parse_canon(&o[1..]); if !c.map(|c| c.block_control_flags & 0xf0 != 0xf0 && wf(&Bundle::new(bp7::primary::PrimaryBlock::new(), vec![c]))).unwrap_or(false) { ok_ops = false; } }
                 if o[0] == "setcrc" && o[1].parse::<u8>().map(|x| x > 2).unwrap_or(true) { ok_ops = false; }
@@ -713,7 +714,7 @@ fn gen_op(rng: &mut Rng, kind: u64) -> String {
     match kind {
         0 => { let c = gen_block(rng, true); let mut c2 = c.clone(); c2.block_number = *rng.pick(&[0u64, 1, 2, u64::MAX, 7, 1 << 63]); c2.crc = bp7::crc::CrcValue::CrcNo; format!("add {}", show_canon(&c2)) }
         1 => format!("setpayload {}", hex(&gen_payload(rng))),
-        2 => format!("setpayloadblock {} {}", *rng.pick(&[0u8, 1, 4]), hex(&gen_payload(rng))),
+        2 => format!("setpayloadblock {} {} {}", match rng.below(6) { 0 => 0, 1 => u64::MAX, 2 => 2 + rng.below(4), 3 => rng.u64b(), _ => 1 }, *rng.pick(&[0u8, 1, 4]), hex(&gen_payload(rng))),
         3 => format!("setcrc {}", rng.below(3)),
         _ => format!("upd {} {} {}", show_eid(&gen_eid_wf(rng)), rng.below(3), 1 + rng.below(1000)),
     }
